@@ -641,16 +641,38 @@ def seeds_hash(info):
     return sha(repr([a["hash"] for a in info["tla"]["actions"]]), repr(sysd.get("constants")), repr(sysd.get("alt_constants")))
 
 
+def scenario_seeds(name):
+    """hand-scripted scenario schedules (corpus/C02/scenario_<sys>_*.json): seeds without a stored state; the state is
+    recomputed from Init by the schedule (Walk.replay_sched) whenever it is used"""
+    import glob
+    out = []
+    for f in sorted(glob.glob(os.path.join(vlib.VERIF, "corpus", "C02", "scenario_%s_*.json" % name))):
+        out += json.load(open(f))["seeds"]
+    return out
+
+
+def seed_state_def(name, i, sd):
+    """Coq definition of the state of seed i"""
+    if sd.get("state"):
+        return "Definition sd%d : gstate := %s.\n" % (i, sd["state"])
+    ents = []
+    for ent in sd["sched"]:
+        key, selfs, ks = ent.lstrip("~").split("/")
+        ents.append('("%s", VNum (%d), [%s]%%nat)' % (key, int(selfs), "; ".join(x for x in ks.split(".") if x != "")))
+    return ("Definition sd%d : gstate := replay_sched (%s_W %d) (match init_state (%s_W %d) (w_init (%s_W %d)) [] [%s]%%nat with Ok s => s | Err _ => [] end) [%s].\n"
+            % (i, name, sd["cset"], name, sd["cset"], name, sd["cset"], "; ".join(str(x) for x in sd.get("init_rnd") or []), "; ".join(ents)))
+
+
 def load_seeds(info):
     """seeds of this system computed with the CURRENT TLA+ translation (others are ignored) -> (list, note)"""
     import gzip
     p = os.path.join(vlib.VERIF, "corpus", "C02", "seeds_%s.json.gz" % info["name"])
     if not os.path.exists(p):
-        return [], None
+        return scenario_seeds(info["name"]), None
     db = json.load(gzip.open(p, "rt"))
     if db.get("tla_hash") != seeds_hash(info):
-        return [], "seed corpus of %s was computed with a different TLA+ translation or other constants: ignored" % info["name"]
-    return db["seeds"], None
+        return scenario_seeds(info["name"]), "seed corpus of %s was computed with a different TLA+ translation or other constants: ignored" % info["name"]
+    return scenario_seeds(info["name"]) + db["seeds"], None
 
 
 def scan_seeds(info, labels, log, limit=400, pred_limit=120):
@@ -662,7 +684,7 @@ def scan_seeds(info, labels, log, limit=400, pred_limit=120):
     sel = [(i, s, None) for i, s in enumerate(seeds) if s["label"] in labels][:limit]
     procs = {l.split(".", 1)[0] for l in labels}
     # one-step lookahead from the deepest stored states (any seed: some instance of the process usually stands at another label)
-    deep = sorted(range(len(seeds)), key=lambda i: -len(seeds[i]["sched"]))[:pred_limit]
+    deep = sorted(range(len(seeds)), key=lambda i: (0 if seeds[i].get("state") is None else 1, -len(seeds[i]["sched"])))[:pred_limit]
     for lab in labels:
         sel += [(i, seeds[i], lab) for i in deep]
     if not sel:
@@ -682,7 +704,7 @@ def scan_seeds(info, labels, log, limit=400, pred_limit=120):
         for i, sd, target in part:
             proc, lbl = sd["label"].split(".", 1)
             if i not in done:
-                body.append("Definition sd%d : gstate := %s.\n" % (i, sd["state"]))
+                body.append(seed_state_def(name, i, sd))
                 done.add(i)
             if target is None:
                 rows.append('scan_seed (%s_W %d) "%s" "%s" sd%d "%d"' % (name, sd["cset"], proc, lbl, i, i))
